@@ -36,6 +36,18 @@ CHECKS = {
                 technique="explicit-state BFS over context histories with a differential probe battery; schedule exploration by access monitoring (own TSan-ABI runtime) with an independence (single Mazurkiewicz trace) argument; free-running ThreadSanitizer pass",
                 text="Context histories (create / preallocated create, randomize with 4 seeds or NULL, install / reset a replaced SHA-256 compression function, clone / preallocated clone, clone-then-randomize-original, callbacks, unrelated-context disturbance) are explored breadth-first to depth 3 (thorough 5), merged on the canonical blinding state; in every state a 40-op battery covering every API family must be byte-identical to a fresh context's, with a balanced allocation ledger. The static context and a byte copy are probed op by op. For schedules, all 1600 ordered pairs (and triples) of battery ops run as logical threads on one shared context with every instrumented non-private memory access a visible operation: programs whose threads share no written byte are independent, so the executed schedule covers all interleavings; a dependent pair is reported as a race. Writable file-scope symbols of the library objects are checked against an allow-list; the small-group build checks n*G for every n in every reachable blinding state.",
                 note="Interleavings are decided at the granularity of accesses clang instruments (inline asm and libc internals are covered only by the separate free-running TSan pass); hardware memory-model effects are out of scope."),
+    "C08": dict(level=MC, design="§4 C08",
+                technique="total small-group enumeration + boundary-alphabet products, lock-step Pedersen / Shallue-van de Woestijne reference model",
+                text="In the order-13 build (generators stored from group elements with known logs) pedersen_commit is enumerated for every (blind encoding incl. b+kN, value, generator), verify_tally for every ordered pair of commitment lists up to 2+2 (multisets 3+3), blind_sum and blind_generator_blind_sum for every small tuple incl. overflow encodings, and helper output is fed back into commit+tally; on secp256k1 the SC x U64 x generator products, tallies of 0..32 commitments balanced / off by one, and both parsers over every prefix byte x boundary x-coordinates are compared with the model (b*G + v*H, SvdW map, prefix 8/9 and 10/11 codecs).",
+                note="secp256k1 scalars / values / seeds outside the alphabets are not explored; a hash output >= p in generator derivation is not constructible. Output buffers after a failed call are not asserted."),
+    "C12": dict(level=MC, design="§4 C12",
+                technique="exhaustive session enumeration (signers x key-list shapes x all tweak words x nonce sources x step orders) + total small-group enumeration of nonces, lock-step BIP-327 reference model",
+                text="Every MuSig2 session in the bounded space (signers 1..3, all key-list shapes, every plain/x-only tweak word up to length 3, 16 optional-argument masks of nonce_gen, counter alphabet {0,1,2^32,2^32+1,2^63,2^64-1}, both step orders, adaptor absent/present, aggregate nonces cancelling to infinity) is executed and compared byte for byte with an independent BIP-327 model (self-tested on all vectors shipped in vectors.h); each partial signature must verify for its signer only; the aggregate must be a valid BIP-340 signature; adapt/extract are inverse. In the order-13 (non-VERIFY) build every nonce tuple (k11,k12,k21,k22) in [1,12]^4 is enumerated.",
+                note="Signer counts 6..15, tweak words longer than 4, keys/messages outside the representatives are not explored."),
+    "C13": dict(level=MC, design="§4 C13",
+                technique="explicit-state search over API call sequences (all sequences to depth 3 unmerged, then BFS with canonical-state merging) against an abstract single-use nonce machine",
+                text="A 49-operation alphabet (nonce_gen / nonce_gen_counter valid and invalid variants; partial_sign with own, foreign, negated-key, zeroed, NULL keypair, missing output, bad cache / session, other nonce's session, reused and zeroed nonce) over two secret-nonce slots: every sequence of length <= 3 (117,649) is replayed on fresh objects without merging, then a merged BFS reaches the fixpoint (73 states); in every state the real secnonce bytes must match the abstract machine (ZERO | LIVE(key,id)), any partial_sign handed a nonce must leave it all-zero, at most one signature per nonce id, failures leave nothing that verifies, nonce_gen wipes the caller's randomness and rejects zero randomness.",
+                note="Depth bound 3 (thorough 4) for unmerged sequences; merging soundness is itself checked on the unmerged levels ((state, op) determines (return, callback, next state))."),
 }
 
 NOT_YET = "check not built yet in this round (work in progress; see DESIGN.md section 4 for the planned exploration)"
